@@ -181,6 +181,48 @@ def run_case(spec):
             if not same(e2.components_, est_f0.components_):
                 viol.append(V(site + '.fit', 'fitted_attribute', 'fit on formed data depends on the presence of a preprocessor', tr))
             evals += 1
+    # ---- exhaustive small index arrays (incl. repeats, sorted runs with gaps, negative indices): X[indices] semantics
+    if pk in ('ndarray', 'list'):
+        import itertools
+        e = zoo.make(name, ds, preprocessor=pre).fit(*index_args)
+        vals = (0, 1, 2, 3, -1)
+        bad_t = bad_p = 0
+        for L_ in (1, 2, 3, 4):
+            for ia in itertools.product(vals, repeat=L_):
+                ia = np.array(ia)
+                if not same(e.transform(ia), e.transform(table[ia])):
+                    bad_t += 1
+                evals += 1
+        for pa in itertools.product(itertools.product(vals, repeat=2), repeat=2):
+            pa = np.array(pa)
+            for arr in (pa, np.vstack([pa, pa[::-1], pa[:1]])):
+                if not same(e.pair_distance(arr), e.pair_distance(table[arr])):
+                    bad_p += 1
+                evals += 1
+        sigs.add((name, pk, 'exhaustive_small_index_arrays'))
+        if bad_t:
+            viol.append(V(site + '.transform', 'output_differs', 'transform(indices) differs from transform(points[indices]) for %d of the 780 index '
+                          'arrays of length <= 4 over {0,1,2,3,-1} (%s preprocessor)' % (bad_t, pk), [pk, 'small_index_arrays']))
+        if bad_p:
+            viol.append(V(site + '.pair_distance', 'output_differs', 'pair_distance(index pairs) differs from the formed pairs for %d small index-pair '
+                          'arrays (%s preprocessor)' % (bad_p, pk), [pk, 'small_index_arrays']))
+    # ---- history: a nested-list preprocessor edited IN PLACE between two fits of the same estimator
+    if pk == 'list':
+        lst = table.tolist()
+        e = zoo.make(name, ds, preprocessor=lst).fit(*index_args)
+        B2 = table * np.linspace(2.0, 0.5, ds.d) - 0.5
+        for r_, row in enumerate(B2.tolist()):
+            lst[r_][:] = row
+        try:
+            e.fit(*index_args)
+            ref = zoo.make(name, ds).fit(*((B2[np.asarray(index_args[0])],) + tuple(index_args[1:])))
+            evals += 2
+            sigs.add((name, pk, 'list_mutated_in_place'))
+            if not same(e.components_, ref.components_):
+                viol.append(V(site + '.fit', 'fitted_attribute', 'a nested-list preprocessor was edited in place; the refit on indices differs from a fit '
+                              'on the points formed from its current content', [pk, 'mutated_in_place']))
+        except Exception as ex:
+            viol.append(V(site + '.fit', 'index_fit_raises', 'refit after editing the list preprocessor raised %s' % type(ex).__name__, [pk]))
     # ---- history: replace the array preprocessor of an already fitted object and use indices again
     if pk in ('ndarray', 'list'):
         B = table * np.linspace(0.5, 2.0, ds.d) + 0.25
